@@ -56,3 +56,18 @@ Print Assumptions C07_safe_name_never_a_keyword.
 Example C07_variant_names :
   variant_name "4" = "v_4"%string /\ variant_name "NFS4_OK" = "NFS4_OK"%string /\ variant_name "type" = "type"%string.
 Proof. repeat split. Qed.
+
+(* every declared type gets its decoder body (rendered twice: TryFrom<Bytes>, TryFrom<&mut Bytes>)
+   and its WireSize impl, under its own name, with the byte-container parameter exactly when the
+   generic index says so (C13) *)
+From XdrProofs Require Import GenFacts.
+Theorem C07_every_type_has_its_impls :
+  forall A md, gen A = EOk md -> (forall k t, In (k, t) (types A) -> ast_type_name t = k) ->
+  forall n t, get_type A n = Some t ->
+    (exists b, emit_from_body A t = EOk b /\
+               find_from md n = Some {| i_name := n; i_generic := is_generic A n; i_body := b |}) /\
+    find_size md n = Some {| i_name := n; i_generic := is_generic A n; i_body := emit_size_body t |}.
+Proof.
+  intros A md Hg Hk n t G. split; [exact (find_from_gen A md Hg Hk n t G)|exact (find_size_gen A md Hg Hk n t G)].
+Qed.
+Print Assumptions C07_every_type_has_its_impls.
